@@ -150,6 +150,11 @@ instance : FmtWrite (List Chunk) where
   writeStr b s := (b ++ [.str s], true)
   writeChar b c := (b ++ [.chr c], true)
 
+/-- `NullWriter` -/
+instance : FmtWrite Unit where
+  writeStr b _ := (b, true)
+  writeChar b _ := (b, true)
+
 /-- `WriteWrapper<W>`: the sink `w` (its remaining script and its call log) and `err` -/
 structure WriteWrapper where
   script : List Beh
@@ -285,6 +290,10 @@ structure StrOutcome where
 def renderString (ops : List Op) : StrOutcome :=
   let r := run ops (St.init ([] : Bytes))
   ⟨r.1.out.w, r.2⟩
+
+/-- `Expression::eval`: `Output::null()` — the `NullWriter` under one discarding entry -/
+def renderNull (ops : List Op) : Chk (Except Err Unit) :=
+  (run ops (⟨⟨(), [none]⟩, []⟩ : St Unit)).2
 
 /-- the chunks the VM hands to the base writer when nothing fails -/
 def chunksOf (ops : List Op) : List Chunk := (run ops (St.init ([] : List Chunk))).1.out.w
